@@ -5,6 +5,7 @@ package main
 import (
 	"fmt"
 	"go/types"
+	"os"
 	"strings"
 
 	"golang.org/x/tools/go/ssa"
@@ -17,6 +18,11 @@ type modSet struct {
 	allHeaps  bool
 	allScalar bool // every H_* heap, including ones not yet materialised
 	allocs    bool
+	// writes that initialise objects allocated inside the scanned region (fresh arrays, boxes,
+	// closures, composite literals) are tracked apart: a heap not in nonFresh is written only at
+	// such objects, so locations that existed before the region keep their contents in it
+	nonFresh map[string]bool          // heaps with at least one write that may hit a pre-existing object
+	region   map[*ssa.BasicBlock]bool // blocks of the loop being scanned (nil inside callees: all fresh)
 }
 
 func rootAlloc(v ssa.Value) *ssa.Alloc {
@@ -35,20 +41,35 @@ func rootAlloc(v ssa.Value) *ssa.Alloc {
 }
 
 func (e *Enc) addLeafHeaps(ms *modSet, t types.Type) {
+	e.addLeafHeapsF(ms, t, false)
+}
+
+// addLeafHeapsF: fresh = the write goes to an object allocated inside the scanned region.
+func (e *Enc) addLeafHeapsF(ms *modSet, t types.Type, fresh bool) {
 	if a, ok := t.Underlying().(*types.Array); ok {
-		e.addLeafHeaps(ms, a.Elem())
+		e.addLeafHeapsF(ms, a.Elem(), fresh)
 		return
 	}
 	for _, lf := range e.P.W.Leaves(t) {
 		if a, ok := lf.Type.Underlying().(*types.Array); ok {
-			e.addLeafHeaps(ms, a.Elem())
+			e.addLeafHeapsF(ms, a.Elem(), fresh)
 			continue
 		}
-		ms.heaps[heapNameT(lf.Sort, lf.Type)] = true
+		n := heapNameT(lf.Sort, lf.Type)
+		if ms.nonFresh == nil {
+			ms.nonFresh = map[string]bool{}
+		}
+		if !fresh {
+			ms.nonFresh[n] = true
+		}
+		ms.heaps[n] = true
 	}
 }
 
 func (e *Enc) addScalarHeaps(ms *modSet) {
+	if os.Getenv("GOVC_DEBUG_SCALAR") != "" {
+		fmt.Fprintf(os.Stderr, "scalar havoc in %s (call %v)\n", e.Unit, e.dbgCall)
+	}
 	for n := range e.base {
 		if strings.HasPrefix(n, "H_") {
 			ms.heaps[n] = true
@@ -61,6 +82,7 @@ func (e *Enc) addScalarHeaps(ms *modSet) {
 func (e *Enc) loopModSet(fr *Frame, li *loopInfo) *modSet {
 	ms := &modSet{cells: map[*ssa.Alloc]bool{}, heaps: map[string]bool{}, iters: map[ssa.Value]bool{}, allocs: true}
 	seen := map[*ssa.Function]bool{}
+	ms.region = li.body
 	for b := range li.body {
 		e.scanBlock(ms, b, seen, true)
 	}
@@ -84,16 +106,19 @@ func (e *Enc) scanBlock(ms *modSet, b *ssa.BasicBlock, seen map[*ssa.Function]bo
 	for _, in := range b.Instrs {
 		switch in := in.(type) {
 		case *ssa.Store:
-			if a := rootAlloc(in.Addr); a != nil && !a.Heap {
+			a := rootAlloc(in.Addr)
+			if a != nil && !a.Heap {
 				if top {
 					ms.cells[a] = true
 				}
 				continue
 			}
-			e.addLeafHeaps(ms, in.Val.Type())
+			// a store into an object allocated inside the region (or inside a callee run by it)
+			fresh := a != nil && a.Heap && (!top || ms.region[a.Block()])
+			e.addLeafHeapsF(ms, in.Val.Type(), fresh)
 		case *ssa.Alloc:
 			if in.Heap {
-				e.addLeafHeaps(ms, in.Type().(*types.Pointer).Elem())
+				e.addLeafHeapsF(ms, in.Type().(*types.Pointer).Elem(), true)
 			} else if top {
 				ms.cells[in] = true
 			}
@@ -103,14 +128,14 @@ func (e *Enc) scanBlock(ms *modSet, b *ssa.BasicBlock, seen map[*ssa.Function]bo
 		case *ssa.MakeMap:
 			e.addMapHeaps(ms, in.Type().Underlying().(*types.Map))
 		case *ssa.MakeSlice:
-			e.addLeafHeaps(ms, in.Type().Underlying().(*types.Slice).Elem())
+			e.addLeafHeapsF(ms, in.Type().Underlying().(*types.Slice).Elem(), true)
 		case *ssa.MakeInterface:
 			if !isPointerShaped(in.X.Type()) {
-				e.addLeafHeaps(ms, in.X.Type())
+				e.addLeafHeapsF(ms, in.X.Type(), true)
 			}
 		case *ssa.MakeClosure:
 			for _, bnd := range in.Bindings {
-				e.addLeafHeaps(ms, bnd.Type())
+				e.addLeafHeapsF(ms, bnd.Type(), true)
 			}
 		case *ssa.Convert:
 			ms.heaps["H_bv8"] = true
@@ -258,6 +283,7 @@ func pointeeTypes(c *ssa.CallCommon, sig *types.Signature, param string) []types
 }
 
 func (e *Enc) scanContractCall(ms *modSet, fc *FuncContract, sig *types.Signature, call *ssa.CallCommon) {
+	e.dbgCall = fc.Key
 	if fc.Pure {
 		return
 	}
@@ -365,6 +391,10 @@ func (e *Enc) scanStaticCall(ms *modSet, fn *ssa.Function, seen map[*ssa.Functio
 	switch key {
 	case "(encoding/binary.bigEndian).PutUint64", "(encoding/binary.bigEndian).PutUint32", "(encoding/binary.bigEndian).PutUint16":
 		ms.heaps["H_bv8"] = true
+		if ms.nonFresh == nil {
+			ms.nonFresh = map[string]bool{}
+		}
+		ms.nonFresh["H_bv8"] = true
 		return
 	case "(encoding/binary.bigEndian).Uint64", "(encoding/binary.bigEndian).Uint32", "(encoding/binary.bigEndian).Uint16",
 		"math/bits.Add64", "math/bits.Sub64", "math/bits.Mul64":
